@@ -304,6 +304,76 @@ def run (ctx, repo, mods, type_parser_classes, fallback_classes=()):
     else:
       ctx.ob('R-DOM', ei, "six raw bytes from a frame are taken as they are", not bad_s, "5 six-byte samples (colons, dashes, hex digits among them) stored unchanged" if not bad_s else
              "EthAddr(%r) - six raw bytes, as ethernet.parse / arp.parse / dhcp.parse pass them - is treated as text (`%s`): parsing a frame whose MAC address happens to consist of such bytes raises out of the parser" % bad_s[0], ei, 'D1')
+  # ---- E11 DHCP options: what is written behind a one-octet length is at most 255 octets -------------------------------------
+  # (unpackOptions concatenates repeated options, RFC 3396, so a received datagram can hold an option object whose packed
+  # form is longer): packOptions evaluated on an option object that packs to 300 octets and on 300 raw octets
+  try: dm = repo.mod('lib.packet.dhcp'); dc = dm.classes.get('dhcp')
+  except Exception: dc = None
+  po = dc.methods.get('packOptions') if dc is not None else None
+  if po is not None:
+    ctx.analysed(po); gpo = q.cfg_of(po)
+    OPT = q.Rec(kind='DHCPOption')
+    big = {}; unknown = 0
+    for label, val in (("an option object whose packed form is 300 octets", OPT), ("a 300-octet raw option value", bytes(300)), ("a 4-octet value", b'abcd')):
+      lens = []
+      def hook (call, env=None):
+        nm = call_name(call)
+        try:
+          if nm == 'isinstance' and len(call.args) == 2 and 'DHCPOption' in norm(call.args[1]):
+            return (True, q.eval_env2(repo, dm, call.args[0], env, dc) is OPT)
+          if nm == 'isinstance' and len(call.args) == 2:
+            v_ = q.eval_env2(repo, dm, call.args[0], env, dc)
+            if v_ is OPT: return (True, False)
+          if nm == 'pack' and isinstance(call.func, ast.Attribute) and q.eval_env2(repo, dm, call.func.value, env, dc) is OPT: return (True, bytes(300))
+          if nm == 'addPart' and len(call.args) == 2: return (True, b'')
+        except Exception:
+          if nm == 'addPart': return (True, b'')
+        return (False, None)
+      hook.wants_env = True
+      def on_node (n_, e_):
+        # record, in the path's own environment, the length of every part handed to addPart
+        if n_.ast is None or n_.kind in ('def', 'branch', 'join', 'for', 'handler'): return
+        for c_ in q.node_calls(n_):
+          if call_name(c_) == 'addPart' and len(c_.args) == 2:
+            try:
+              v_ = q.eval_env2(repo, dm, c_.args[1], e_, dc)
+              rec = len(v_) if isinstance(v_, (bytes, list)) else ('obj' if v_ is OPT else '?')
+            except Exception: rec = '?'
+            e_.exact['__parts__'] = e_.exact.get('__parts__', ()) + (rec,)
+      env = q.Env({'self.options.items()': [(53, val)], 'self.options': {53: val}}, [], hook)
+      res = set()
+      for p_, e_ in q.paths_under(repo, dm, gpo, env, gpo.entry, [gpo.exit], dc, limit=60, on_node=on_node): res.add(e_.exact.get('__parts__', ()))
+      if len(res) != 1 or any(x == '?' for r_ in res for x in r_) or not list(res)[0]: unknown += 1; continue
+      parts = list(res)[0]
+      if any(x == 'obj' or (isinstance(x, int) and x > 255) for x in parts): big[label] = parts
+    if unknown and not big:
+      ctx.undecided('R-CONTAIN', po, "every option part written behind a length octet fits it", "packOptions not evaluable on %d sample(s)" % unknown, po, 'D4')
+    else:
+      ctx.ob('R-CONTAIN', po, "every option part written behind a length octet fits it", not big, "option object / raw value of 300 octets are split into parts of at most 255" if not big else
+             "for %s packOptions writes part(s) of length %s behind a one-octet length: bytes((len,)) raises ValueError - a received datagram with a repeated (concatenated, RFC 3396) option cannot be re-serialised"
+             % (sorted(big.items())[0][0], list(sorted(big.items())[0][1])), po, 'D4')
+  # ---- E12 the logging shortcuts every length guard calls: the text they are given contains bytes of the frame -----------------
+  # (repr of a bad magic cookie, an address): it may hold '%' or '{'.  Handing it to the logging module as-is is safe (logging
+  # formats lazily and swallows formatting errors); using it as a *format string* here raises out of the guard - out of parse()
+  try: pbm_ = repo.mod('lib.packet.packet_base'); pbc_ = pbm_.classes.get('packet_base')
+  except Exception: pbc_ = None
+  if pbc_ is not None:
+    seen_ = set(); work_ = [pbc_.methods[n_] for n_ in ('msg', 'err', 'warn') if n_ in pbc_.methods]
+    ctx.floor('parser logging shortcuts', len(work_), 3)
+    while work_:
+      f_ = work_.pop()
+      if f_.qual in seen_: continue
+      seen_.add(f_.qual); ctx.analysed(f_)
+      a_ = f_.node.args
+      ps_ = set(x.arg for x in a_.args[1:]) | ({a_.vararg.arg} if a_.vararg else set()) | ({a_.kwarg.arg} if a_.kwarg else set())
+      eager = []
+      for x in ast.walk(f_.node):
+        if isinstance(x, ast.BinOp) and isinstance(x.op, ast.Mod) and (q.names_in(x.left) & ps_) and not (isinstance(x.left, ast.Constant)): eager.append(x)
+        if isinstance(x, ast.Call) and isinstance(x.func, ast.Attribute) and x.func.attr == 'format' and (q.names_in(x.func.value) & ps_): eager.append(x)
+        if isinstance(x, ast.Call) and isinstance(x.func, ast.Attribute) and norm(x.func.value) == 'self' and x.func.attr in pbc_.methods and len(seen_) < 8: work_.append(pbc_.methods[x.func.attr])
+      ctx.ob('R-CONTAIN', f_, "the caller's text is not used as a format string here", not eager, "passed on to the logging module unformatted" if not eager else
+             "`%s` formats with the caller's text as the format string: a guard message that embeds bytes of the frame (the repr of a bad DHCP magic cookie containing '%%', say) makes it raise TypeError / ValueError "
+             "- the length guard raises out of parse() instead of logging and returning" % norm(eager[0])[:60], (pbm_, eager[0]) if eager else f_, 'D1')
   ctx.stat('own __str__ methods examined', n_str); ctx.stat('tuple-arity sites', n_arity); ctx.stat('self-nesting dispatch sites', n_rec); ctx.stat('TLV value slices compared', n_tlv)
 
 def tlv_value_slices (ctx, classes, clause):
